@@ -24,12 +24,12 @@ def T(name: str, k: str = "ok", n: int = 0, target: str = "", out: dict | None =
 
 
 def S(ref: str, req=(), tasks=None, join="AND", thr=0, cof=False, failp=True, mutex="", choice="",
-      parent="", owner="", enabled=None, ctx=None, region="") -> dict:
+      parent="", owner="", enabled=None, ctx=None, region="", split=None) -> dict:
     if tasks is None:
         tasks = [T(f"{ref}.1")]
     return {"ref": ref, "req": sorted(req), "tasks": tasks, "join": join, "thr": thr, "cof": cof,
             "failp": failp, "mutex": mutex, "choice": choice, "parent": parent, "owner": owner,
-            "enabled": enabled, "ctx": ctx or {}, "region": region}
+            "enabled": enabled, "ctx": ctx or {}, "region": region, "split": dict(split or {})}
 
 
 def P(name: str, stages: list[dict], max_jumps: int = -1, **kw) -> dict:
@@ -102,6 +102,23 @@ def extra_family() -> list[dict]:
     return fam
 
 
+def split_family() -> list[dict]:
+    """OR-split (WCP-6) with and without the paired OR-join (WCP-7)"""
+    fam = []
+    # a splits to b (yes) / c (no) / d (no condition), OR-join j over b, c, d
+    fam.append(P("orsplit", [S("a", split={"b": True, "c": False}), S("b", ["a"]), S("c", ["a"]), S("d", ["a"]),
+                             S("j", ["b", "c", "d"], join="OR")]))
+    # nothing activated: the first downstream is; AND-join below (a skipped branch counts as continuable)
+    fam.append(P("ornone", [S("a", split={"b": False, "c": False}), S("b", ["a"]), S("c", ["a"]), S("j", ["b", "c"])]))
+    # the activated branch fails: the OR-join must not run; the skipped branch has its own downstream
+    fam.append(P("orfail", [S("a", split={"b": True, "c": False}), S("b", ["a"], tasks=[T("b.1", "terminal")]), S("c", ["a"]),
+                            S("e", ["c"]), S("j", ["b", "c"], join="OR")]))
+    # two OR-joins fed by one split, two tasks in the activated branch
+    fam.append(P("ortwo", [S("a", split={"b": True, "c": True, "d": False}), S("b", ["a"], tasks=[T("b.1"), T("b.2")]), S("c", ["a"]),
+                           S("d", ["a"]), S("j", ["b", "d"], join="OR"), S("k", ["c", "d"], join="OR")]))
+    return fam
+
+
 def region_family() -> list[dict]:
     """programs with a cancel region (WCP-25): CancelRegion is injected by the drivers"""
     fam = []
@@ -142,7 +159,7 @@ def control_family() -> list[dict]:
 
 def all_programs() -> list[dict]:
     return [with_outputs(p) for p in core_family() + extra_family() + control_family() + synthetic_family()
-            + operator_family() + region_family()]
+            + operator_family() + region_family() + split_family()]
 
 
 # ----------------------------------------------------------------------------------------------
@@ -189,6 +206,11 @@ def build_workflow(prog: dict):
             kw["deferred_choice_group"] = sd["choice"]
         if sd.get("region"):
             kw["cancel_region"] = sd["region"]
+        if sd.get("split"):     # OR-split (WCP-6): constant conditions, their values are the program's data
+            from stabilize.models.stage import SplitType
+
+            kw["split_type"] = SplitType.OR
+            kw["split_conditions"] = {d: ("1 == 1" if v else "1 == 2") for d, v in sd["split"].items()}
         st = StageExecution(ref_id=sd["ref"], type="verif", name=sd["ref"], context=ctx,
                             requisite_stage_ref_ids=set(sd["req"]), tasks=tasks, **kw)
         st.id = "S%03d-%s" % (i, sd["ref"])
@@ -323,6 +345,7 @@ def tla_program(prog: dict) -> dict:
         "failp": {s["ref"]: s["failp"] for s in st},
         "mutex": {s["ref"]: s["mutex"] for s in st},
         "region": {s["ref"]: s.get("region", "") for s in st},
+        "split": {s["ref"]: dict(s.get("split") or {}) for s in st},
         "choice": {s["ref"]: s["choice"] for s in st},
         "parent": {s["ref"]: s["parent"] for s in st},
         "owner": {s["ref"]: s["owner"] for s in st},
